@@ -201,10 +201,15 @@ def run_shard(spec, tier, seed):
         for odim in odims:
             sigs = sweep.signatures(op, dim, odim, "quick", r)[: (2 if tier == "quick" else 4)]
             for (s_self, s_other, order) in sigs:
-                draws = W.make_batch(op, dim, r, N, odim=odim, momentum=op.momentum_only or r.random() < 0.5)
-                try:
-                    cases = [W.instantiate(d, s_self, s_other, order) for d in draws]
-                except R.NotRepresentable:
+                cases = None
+                for attempt in range(6):  # redraw until all N operand sets are representable in this signature
+                    draws = W.make_batch(op, dim, r, N, odim=odim, momentum=op.momentum_only or r.random() < 0.5)
+                    try:
+                        cases = [W.instantiate(d, s_self, s_other, order) for d in draws]
+                        break
+                    except R.NotRepresentable:
+                        res.count("batch_redrawn_not_representable")
+                if cases is None:
                     continue
                 selfs = [c[0] for c in cases]
                 plain = sweep._scalars_plain(cases[0][1])
